@@ -15,6 +15,7 @@ import (
 	"strconv"
 	"strings"
 	"sync"
+	"time"
 )
 
 type rec struct {
@@ -237,3 +238,8 @@ var harnessMu sync.Mutex
 
 func HarnessLock()   { harnessMu.Lock() }
 func HarnessUnlock() { harnessMu.Unlock() }
+
+// AdvanceTime(d): virtual-clock mode of the symbolic executor: all timers due
+// within the next d fire in due-time order, each followed by a run of all other
+// goroutines until they block. Natively a sleep.
+func AdvanceTime(d time.Duration) int { time.Sleep(d); return 0 }
